@@ -152,6 +152,11 @@ func decodeMapBodyInto(blob []byte, v reflect.Value, fields []mapBodyField) erro
 		if !ok {
 			continue
 		}
+		// A msgpack nil (nil slice / map / pointer / []byte saved without
+		// omitempty) arrives as an empty RawMessage: leave the zero value.
+		if len(raw) == 0 || (len(raw) == 1 && raw[0] == 0xc0) {
+			continue
+		}
 		fv := v.Field(f.Index)
 		if !fv.CanAddr() {
 			continue
